@@ -429,6 +429,22 @@ func diffTrees(a, b interface{}, path string, out *[]string) {
 			add(path + "#len")
 			return
 		}
+		// the virtual hosts of a router table are a name-keyed list: a directory is read back in file-name order
+		if strings.HasSuffix(path, ".VirtualHosts") {
+			am, ok1 := byGoName(av)
+			bm, ok2 := byGoName(bv)
+			if ok1 && ok2 {
+				for k, x := range am {
+					y, present := bm[k]
+					if !present {
+						add(path + "[*]#presence")
+						continue
+					}
+					diffTrees(x, y, path+"[*]", out)
+				}
+				return
+			}
+		}
 		for i := range av {
 			diffTrees(av[i], bv[i], fmt.Sprintf("%s.%d", path, i), out)
 		}
@@ -442,6 +458,25 @@ func diffTrees(a, b interface{}, path string, out *[]string) {
 			add(path)
 		}
 	}
+}
+
+func byGoName(a []interface{}) (map[string]interface{}, bool) {
+	m := map[string]interface{}{}
+	for _, e := range a {
+		o, ok := e.(map[string]interface{})
+		if !ok {
+			return nil, false
+		}
+		n, ok := o["Name"].(string)
+		if !ok || n == "" {
+			return nil, false
+		}
+		if _, dup := m[n]; dup {
+			return nil, false
+		}
+		m[n] = e
+	}
+	return m, true
 }
 
 // ---------------------------------------------------------------- one MOSN life
